@@ -98,12 +98,82 @@ def run(ctx):
                        "prescribed_stdout": want.decode(), "observed_stdout": out.decode(errors="replace"), "observed_exit": x["rc"], "source": rr["src"]}
                 ctx.save_replay("%s_%s.nano" % (cid, engine), rr["src"])
                 ctx.violation("%s %s: %s" % (engine, cid, problem), ctx.save_replay("%s_%s.json" % (cid, engine), json.dumps(rep, indent=1)))
+    history_family(ctx, eng, stats)
     n_checked = sum(v for k, v in stats.items() if k.endswith(":checked"))
     cov = dict(states=r.distinct, transitions=r.generated, traces_validated_against_impl=0, samples=samples or [{"note": "none"}],
                evaluations=n_checked, distinct_nontrivial=len(cases), classes=dict(stats), exhaustive=True,
                rule="all (length 0..MaxLen) x 10 index kinds (-1, n, n+1, -2^63, 2^63-1, 2^32, 2^32+k, 2^31, first, last) x {read, write, pop} x {straight, loop, callee, computed index}; distinct by construction; replayed on native, VM and evaluator")
     return "model_checking", cov, ["NanoSemBounds.tla: INVARIANT Stops holds on the specification for every enumerated case",
                                    "memory safety of the access itself: VM cases re-run on the ASan/UBSan build in the thorough tier (native runtime: C20)"]
+
+
+def history_family(ctx, eng, stats):
+    """accesses that are out of range only because of what happened to the array before (its storage is larger than its
+    length after a push or a pop, a loop shrinks the array it walks): the access must stop the program all the same.
+    Prescribed by NanoSem; for the for-in loop both documented-silent readings (length re-read / read once) are accepted."""
+    AI = "array<int>"
+    def body(stmts): return Program([Func("body", [], "int", list(stmts) + [Ret(I(0))]), Func("main", [], "int", [Ret(Call("body"))])])
+    start = Let("a", AI, ALit("int", [I(1), I(2), I(3)]), True)
+    mark = [Println(S("before"))]; after = [Println(S("after"))]
+    progs = {
+        "hist_push_then_set_beyond_length": body([start, Set("a", Call("array_push", V("a"), I(4)))] + mark + [Ex(Call("array_set", V("a"), I(5), I(99)))] + after),
+        "hist_push_then_read_beyond_length": body([start, Set("a", Call("array_push", V("a"), I(4)))] + mark + [Println(Call("at", V("a"), I(4)))] + after),
+        "hist_pop_then_set_old_last": body([start, Ex(Call("array_pop", V("a")))] + mark + [Ex(Call("array_set", V("a"), I(2), I(7)))] + after),
+        "hist_pop_then_read_old_last": body([start, Ex(Call("array_pop", V("a")))] + mark + [Println(Call("at", V("a"), I(2)))] + after),
+        "hist_remove_at_then_read_old_last": body([start, Set("a", Call("array_remove_at", V("a"), I(0)))] + mark + [Println(Call("at", V("a"), I(2)))] + after),
+        "hist_pop_all_then_pop": body([start, Ex(Call("array_pop", V("a"))), Ex(Call("array_pop", V("a"))), Ex(Call("array_pop", V("a")))] + mark + [Println(Call("array_pop", V("a")))] + after),
+        "hist_push_pop_in_range_control": body([start, Set("a", Call("array_push", V("a"), I(4))), Ex(Call("array_pop", V("a")))] + mark + [Println(Call("at", V("a"), I(2)))] + after),
+        "hist_forin_shrinks_own_array": body([Let("a", AI, ALit("int", [I(10), I(20), I(30), I(40), I(50), I(60)]), True), Let("seen", "int", I(0), True),
+                                              ForIn("x", V("a"), [Println(V("x")), Set("seen", Bin("+", V("seen"), I(1))),
+                                                                  If(Bin(">", Call("array_length", V("a")), V("seen")), [Ex(Call("array_pop", V("a")))], [])]),
+                                              Println(V("seen"))]),
+    }
+    jobs = [job(pid, p) for pid, p in progs.items()] + [job("hist_forin_shrinks_own_array|snap", progs["hist_forin_shrinks_own_array"], dev=["FORIN_LENGTH_SNAPSHOT"])]
+    recs, _ = prescribe(ctx, jobs)
+
+    def one(pid):
+        p = progs[pid]
+        d = eng.write(pid, pretty(p))
+        res = {"native": eng.native(d), "vm": eng.vm(d), "src": pretty(p)}
+        eng.emit(d)
+        res["nano_vm"] = eng.nano_vm(d) if os.path.exists(os.path.join(d, "p.nvm")) else eng.vm(d)
+        q = copy.deepcopy(p); q["shadows"] = [{"fn": "body", "b": [Assert(Bin("==", Call("body"), I(0)))]}]
+        res["interp"] = eng.shadow_only(eng.write(pid + ".sh", pretty(q)))
+        return pid, res
+    runs = dict(parallel_map(one, list(progs)))
+    for pid, rr in runs.items():
+        alts = [recs[pid]] + ([recs[pid + "|snap"]] if pid + "|snap" in recs else [])
+        for engine in ("native", "vm", "nano_vm", "interp"):
+            x = rr[engine]
+            if engine == "native":
+                if not x["exe"]:
+                    stats["native-no-exe:" + compile_class(x)] += 1; continue
+                x = x["run"]
+            if engine == "interp":
+                ev, tests = parse_transcript(x["out"].decode(errors="replace"))
+                b_ = [t for t in tests if t["name"] == "body"]
+                out = b_[0]["out"].encode() if b_ else b""
+                if not any(e["e"] == "tc_ok" for e in ev):
+                    stats["interp-rejected"] += 1; continue
+            else:
+                out = x["out"]
+            stopped = ((x["rc"] not in (0, None)) or x["sig"] == 6) and not x["timeout"]
+            stats["%s:checked" % engine] += 1
+            ok = False
+            for o in alts:
+                want = render_out(o["out"]).encode()
+                if o["status"] == "ok":
+                    ok = ok or (out == want and x["rc"] == 0)
+                elif o["status"].startswith("fault:"):
+                    ok = ok or (stopped and want.startswith(out) and b"after" not in out.split(b"\n"))
+            if ok:
+                stats["%s:as-prescribed" % engine] += 1
+                continue
+            rep = {"case": pid, "engine": engine, "acceptable": [{"status": o["status"], "stdout": render_out(o["out"])} for o in alts],
+                   "observed_stdout": out.decode(errors="replace"), "observed_exit": x["rc"], "observed_signal": x["sig"], "source": rr["src"]}
+            ctx.save_replay("%s_%s.nano" % (pid, engine), rr["src"])
+            ctx.violation("%s %s: observed %r exit %s, acceptable: %s" % (engine, pid, out[-80:], x["rc"], [(o["status"], render_out(o["out"])[-60:]) for o in alts]),
+                          ctx.save_replay("%s_%s.json" % (pid, engine), json.dumps(rep, indent=1)))
 
 
 def replay(ctx, path):
